@@ -242,8 +242,9 @@ pub fn run_one(spec: &RunSpec, properties: &[String], deadline: Instant, stop_at
         );
     }
     for h in handles {
-        if h.join().is_err() {
-            shared.errors.lock().unwrap().push("worker thread panicked".into());
+        if let Err(p) = h.join() {
+            let msg = p.downcast_ref::<String>().cloned().or_else(|| p.downcast_ref::<&str>().map(|s| s.to_string())).unwrap_or_default();
+            shared.errors.lock().unwrap().push(format!("worker thread panicked: {msg}"));
         }
     }
     let errs = shared.errors.lock().unwrap().clone();
